@@ -37,7 +37,6 @@ CLAIMS = {
 WORLD_NOTE = ("Lean kernel + standard axioms for the theorems that exist; hand-written world model and spec tied to /repo by differential execution on the "
               "explored op files only; locked API calls taken as atomic; contract of DESIGN.md 3.3; component values are opaque tokens")
 for _pid, _what in {
-    "C03": "instrumented component types (per-address live/dead automaton, live counts, afterAssign/beforeRemove), teardown with non-empty buffers",
 }.items():
     CLAIMS[_pid] = ("other", "executable Lean world model + abstract Lean spec run against the library on the same op files (correspondence tie + spec oracle); "
                     "Lean theorems for this property in progress",
@@ -103,6 +102,15 @@ CLAIMS["C06"] = ("other", "Lean 4 theorems for the logic (disjoint split = C04 t
                  "trace acceptance. Claimed as 'other' (partial by nature, DESIGN.md section 6).",
                  "Lean kernel + standard axioms for the model theorems; happens-before/atomicity/compiler reordering trusted to TSan on explored schedules")
 
+CLAIMS["C03"] = ("proof", "Lean 4 theorems over a lifecycle EVENT model of the world model (per-slot live/dead automaton) + per-op event-count correspondence with instrumented types",
+                 "WM.events lists, in the order archetype.cpp / entity_manager.cpp perform them, the construct / copy-construct / move-construct / move-assign / "
+                 "destroy events of one API call; step_events_accepted (the per-slot automaton accepts every step's log and ends in exactly the live-slot "
+                 "set of the next state, for every operation incl. the flush), run_events_accepted, teardown_leaves_nothing (also while locked with "
+                 "non-empty buffers), balanced_of_accepted, live_count_eq, cbDiff_* (one afterAssign per attachment, one beforeRemove per detachment); on "
+                 "the implementation: instrumented heap-owning types with a per-address live/dead automaton, per-op event counts (EV lines) and live "
+                 "counts diffed with the model, callbacks diffed with the spec, LeakSanitizer at teardown.",
+                 WORLD_NOTE + "; run_events_accepted assumes the contract/invariant StepOk at every visited state (not re-derived through the flush); events "
+                 "are listed as if every type had all lifecycle functions, the implementation comparison covers the instrumented types B and G")
 CLAIMS["C07"] = ("proof", "Lean 4 invariant proof over a model of version stamps / job filters + correspondence on generated histories",
                  "no_missed_write and no_missed_write_history (a pending write / dirty mark / arrival / relocation / other job's write of a checked component "
                  "of an entity in a matching archetype is processed by the next run of the job, wherever update() and other jobs' runs fall in between), "
